@@ -23,8 +23,9 @@ Fixpoint scan (s : store) (evs : list (event * obsv)) (last : list (nat * (N * N
       if negb (o_chk o) then scan s t last nst else
       let r := ev_rep ev in
       let '(c0, cc0) := last_of r last in
-      (* never decrease *)
-      N.leb c0 (o_clk o) && N.leb cc0 (o_cclk o) &&
+      (* never decrease -- except that after the clock files were lost the clocks are rebuilt from the stored
+         entities: then only "at least their maximum" is promised (checked below for every local history) *)
+      (match ev with EReopen _ true => true | _ => N.leb c0 (o_clk o) && N.leb cc0 (o_cclk o) end) &&
       (* commits written by this step: strictly newer than the previous clock value and than all their ancestors,
          not newer than the clock afterwards *)
       forallb (fun i => N.ltb c0 (edit_at s i) && N.leb (edit_at s i) (o_clk o) &&
